@@ -164,6 +164,8 @@ def run(ctx):
     for bi, b in enumerate(tcp.blocks):
         for i, s in enumerate(b['stmts']):
             if s['rv']['k'] == 'agg' and s['rv'].get('agg') == 'closure':
+                if s['rv'].get('closure') in F.inlined_helpers:
+                    continue        # a local closure invoked in place (inlined): not the get_tcb callback
                 v = tcp.rvalue(s['rv'], (bi, i))
                 v = tcp._through(v, (bi, i), 0)
                 pls = calls_in(v, r"TcpPacket<'a> as pnet::packet::Packet>::payload$")
